@@ -13,7 +13,8 @@ STRS = ['""', '"a"', '"a\\"b"', '"a\\\\"', '"\\n"', '"\\"', '"{"', '"}"', '"{}"'
         '"{ x }"', '"{x}{x}"', '"{x + 1}"', '"{"q"}"', '"{x}\\\\"', '"a\nb"', '"a\n{x}\nb"', '"\'"', '"\'\'\'"',
         '"""doc"""', '"""d"c"""', '"""a\nb"""', '"""\\"""', '"é"', '"\\x"', '"\\{x\\}"', '"%s"', '"{x!r}"', '"{x:>3}"',
         '"{x = }"', '"#"', '"a # b"', '"\\t"', '"{x}" + "{x}"', '"a \\{ b"', '"a \\{ b {x}"', '"{x} \\}"', '"a\r\nb"', '"a\rb"',
-        '"a\r\n{x}"', '"\\r"', '"\\0"', '"\\1"', '"a\fb"', '"a\x0bb"', '"tab\there"', '"{x}\r"']
+        '"a\r\n{x}"', '"\\r"', '"\\0"', '"\\1"', '"a\fb"', '"a\x0bb"', '"tab\there"', '"{x}\r"', '"abc\\\\"', '"\\\\{x}"', '"C:\\\\{x}\\\\"', '"{} and {x}"', '"{ } {x}"',
+        '"{}"', '"{x} {}"', '"\\\\\\""', '"{x}\\\\"']
 IDS = ["lambda", "try", "global", "yield", "del", "assert", "async", "await", "except", "finally", "nonlocal", "elif",
        "print", "exec", "True_", "None_", "_x", "__x__", "x1", "X", "list", "str", "int", "type_", "object", "super",
        "cls", "ClassName"]
@@ -32,7 +33,8 @@ def literal_stress(draw):
         lit = draw(st.sampled_from(STRS))
         ctx = draw(st.sampled_from(["def x := 1\ndef s := %s\n", "def x := 1\nprint(%s)\n", "def x := 1\ndef s: Str := %s\nprint(s)\n",
                                     "def x := 1\ndef f(a: Str := %s) => print(a)\n", "def x := 1\nif %s = \"a\" then print(1)\n",
-                                    "def x := 1\ndef l := [%s]\n", "def x := 1\nmatch \"a\"\n    %s => print(1)\n    _ => print(2)\n"]))
+                                    "def x := 1\ndef l := [%s]\n", "def x := 1\nmatch \"a\"\n    %s => print(1)\n    _ => print(2)\n",
+                                    "def x := 1\ndef s := %s + \"t\"\nprint(s)\n", "def x := 1\ndef s := \"t\" + %s + \"u\"\n"]))
         return {"gen": "lit-str", "src": ctx % lit}
     name = draw(st.sampled_from(IDS))
     if kind == "id":
@@ -54,6 +56,8 @@ def literal_stress(draw):
             "class A\n    def x: Int\n", "class A\n    def fin x: Int := 1\n", "def x: Int\n", "def (a, b): (Int, Int)\n",
             "def f() -> Int?\n", "def f()\n", "import a\n", "from a import b\n", "from a import b as c\n", "import a as b\n",
             "with open(\"f\") as g do pass\n", "with open(\"f\") do pass\n",
+            "type T\n    def m(self) -> Int =>\n        def f() -> Int\n        1\n", "class K\n    def m(self) -> Int =>\n        def g(x: Int) -> Int\n        1\n",
+            "def f() =>\n    def g() -> Int\n    print(1)\n", "type T\n    def m(self) -> Int\n    def n(self) =>\n        def h()\n        pass\n",
         ]))}
     if kind == "doc":
         return {"gen": "docstring", "src": draw(st.sampled_from([
@@ -142,7 +146,7 @@ def shape_stress(draw):
         src = "def c := True\ndef n := 1\ndef x := 0\ndef g(k: Int) => print(k)\n" + (pos % v) + "\n"
         return {"gen": "shape-value-position", "src": src}
     # nested ternaries where a branch is a block
-    inner = draw(st.sampled_from(["if c then 2 else 3", BLOCK_IF.format(i="", v1="2", v2="3"), "if c then\n    4\nelse 5",
+    inner = draw(st.sampled_from(["if c then 2 else 3", "pass", "if c then pass else 3", BLOCK_IF.format(i="", v1="2", v2="3"), "if c then\n    4\nelse 5",
                                   BLOCK_MATCH.format(i="", v1="2", v2="3")]))
     outer = draw(st.sampled_from(["def x := if c then 1 else %s", "def x := if c then %s else 1", "def x: Int := if c then 1 else %s",
                                   "def f() -> Int => if c then 1 else %s", "x := if c then 1 else %s", "print(if c then 1 else %s)"]))
